@@ -11,10 +11,23 @@
       strings NUL-free valid UTF-8, optional arguments only as a trailing
       run, context-dependent literal widths agree with the tracker [t], the
       instruction fits the 16-bit word count).
-    - Theorem [built_conforms]: then the built instruction conforms.
+    - Theorem [built_conforms]: then the instruction assembled from the
+      call's parts and the settled result id conforms.  [built_inst_conforms]
+      is the same for [BuilderIds.built_inst] (non-type methods),
+      [call_conforms] / [type_call_conforms] are the run-level statements
+      (the bound on a fresh result id comes from the successful call),
+      [built_roundtrip] adds parse (assemble i) = i.
+
+    All slot shapes are covered (DOne / DOpt / DMany / DPairs / DExtras,
+    parameterised enumerants and masks, the context-dependent literal of
+    OpConstant / OpSpecConstant, the pairs of OpSwitch).  [desc_matches]
+    rejects, by design: the embedded opcode of OpSpecConstantOp (KSpecOp), a
+    variadic grammar operand that is not the last one, and a parameterised
+    kind without a slot of its own for the parameters.
 
     The check is evaluated on the descriptors of this run at the end of the
-    file; the methods that cannot conform are listed in [exceptions]. *)
+    file; the 11 methods that do not match are listed in [exceptions], each
+    with the reason and a concrete non-conforming call. *)
 From RV Require Import Model.Base Model.Bytes Model.Spirv Model.Grammar Model.Module Model.Decoder
                        Model.Inst Model.Parser Model.Loader Model.Builder.
 From RV Require Import Spec.Conforms Proofs.BuilderIds.
@@ -617,8 +630,8 @@ Lemma step_pairlit_conf k q r acc sl ch main c sl' a cops :
 Proof.
   intros Hstep H1 H2 H3 H4 Ha Hc Hchk os' Hos'.
   unfold step_pairlit in Hstep. destruct q; try discriminate. destruct r as [|? ?]; [|discriminate].
-  destruct sl as [|[ok p|ok p|ok p|ok0 ok1 p|p] [|? ?]]; try discriminate.
-  destruct ok0; try discriminate. destruct ok1; try discriminate.
+  destruct sl as [|[ok p|ok p|ok p|ok0 ok1 p|p] [|? ?]]; try discriminate;
+    (destruct ok0; try discriminate; destruct ok1; try discriminate).
   destruct (N.eqb opc OP_SWITCH) eqn:Eopc; [|discriminate].
   inversion Hstep; subst. clear Hstep.
   cbn [car_ops] in Hc. inversion Hc; subst cops. cbn [all_operands] in Hos'. inversion Hos'; subst os'.
@@ -665,8 +678,8 @@ Proof.
     destruct (_ && _); [|discriminate]. intros H; inversion H; subst. reflexivity. }
   destruct (N.eqb k (gd_k_pairlitid G)).
   { unfold step_pairlit. destruct q; try discriminate. destruct r; [|discriminate].
-    destruct sl as [|[ok p|ok p|ok p|ok0 ok1 p|p] [|? ?]]; try discriminate.
-    destruct ok0; try discriminate. destruct ok1; try discriminate.
+    destruct sl as [|[ok p|ok p|ok p|ok0 ok1 p|p] [|? ?]]; try discriminate;
+      (destruct ok0; try discriminate; destruct ok1; try discriminate).
     destruct (N.eqb opc OP_SWITCH); [|discriminate]. intros H; inversion H; subst. reflexivity. }
   destruct (N.eqb k (gd_k_specop G)); [discriminate|].
   destruct (nth_error (gd_arms G) (N.to_nat k)) as [arm|]; [|discriminate].
@@ -758,3 +771,420 @@ Proof.
 Qed.
 
 End Step.
+
+(** ------------------------------------------------------------------ *)
+(** * The main theorem                                                   *)
+(** ------------------------------------------------------------------ *)
+
+(** the result id the call settled on: present exactly when the method gives
+    one, and a 32-bit word *)
+Definition rid_settled (d : descriptor) (rid : option N) : Prop :=
+  match rid with
+  | Some v => has_rid d = Some true /\ v < w32
+  | None => has_rid d = Some false
+  end.
+
+Lemma call_parts_inv d e rt ops : call_parts d e = Some (rt, ops) ->
+  all_operands e (d_slots d) = Some ops /\ rt_of d e = Some rt.
+Proof.
+  unfold call_parts. destruct (all_operands e (d_slots d)) as [o|]; [|discriminate].
+  destruct (rt_of d e) as [r|]; [|discriminate]. intros H; inversion H; subst. auto.
+Qed.
+
+(** the instruction assembled from the call's parts and the settled result
+    id conforms to the grammar entry of the method's opcode *)
+Theorem built_conforms G t d e rt ops rid :
+  desc_matches G d = true -> args_ok G t d e ->
+  call_parts d e = Some (rt, ops) -> rid_settled d rid ->
+  conforms G t (mk_inst (d_opcode d) rt rid ops) = true.
+Proof.
+  unfold desc_matches, args_ok, args_okb. intros HM HA HP HR. rewrite HP in HA.
+  destruct (lookup_core (gd_table G) (d_opcode d)) as [g|] eqn:EL; [|discriminate].
+  destruct (has_rid d) as [hr|] eqn:Ehr; [|discriminate].
+  destruct (strip_res G (has_rt d) hr (g_operands g)) as [lops|] eqn:Est; [|discriminate].
+  apply andb_prop in HA as [HA Hsize]. apply andb_prop in HA as [HA Hslots].
+  apply andb_prop in HA as [Hrt Hrid].
+  destruct (call_parts_inv _ _ _ _ HP) as [Hops Hrtof].
+  unfold conforms. cbn [mk_inst i_opcode i_rtype i_rid i_ops]. rewrite EL.
+  apply andb_true_intro. split.
+  - apply strip_conf with (rt := has_rt d) (rid := hr) (lops := lops); [exact Est| | |].
+    + unfold has_rt, rt_of, rt_arg_ok in *. destruct (d_rt d) as [|p].
+      * inversion Hrtof. reflexivity.
+      * destruct (assoc p e) as [[]|]; try discriminate. inversion Hrtof; subst.
+        eexists. split; [reflexivity|]. apply N.ltb_lt. exact Hrt.
+    + unfold rid_settled in HR. rewrite Ehr in HR. destruct rid as [v|].
+      * destruct HR as [HR Hv]. inversion HR; subst. exists v. split; [reflexivity|exact Hv].
+      * inversion HR; subst. reflexivity.
+    + apply slots_conf with (hrt := has_rt d) (e := e) (sl := d_slots d); assumption.
+  - unfold asm_body. cbn [mk_inst i_rtype i_rid i_ops]. unfold inst_words in Hsize.
+    rewrite !app_length.
+    replace (length (oword rid)) with (if hr then 1 else 0)%nat.
+    + apply N.ltb_lt in Hsize. apply N.ltb_lt. lia.
+    + unfold rid_settled in HR. rewrite Ehr in HR. destruct rid as [v|].
+      * destruct HR as [HR _]. inversion HR; subst. reflexivity.
+      * inversion HR; subst. reflexivity.
+Qed.
+
+(** ** the instruction of a non-type method ([built_inst]) *)
+Lemma rid_of_settled d s e rid :
+  d_sink d <> SDedupType -> has_rid d <> None -> rid_of d s e = Some rid ->
+  (forall v, rid = Some v -> v < w32) -> rid_settled d rid.
+Proof.
+  unfold rid_settled. unfold has_rid, rid_of. intros Hs Hh Hr Hb.
+  destruct (d_sink d); try congruence; destruct (d_rid d) as [| |p|p|]; try congruence;
+    try (destruct (assoc p e) as [[]|]; try discriminate;
+         match type of Hr with context [match ?v with _ => _ end] => destruct v end);
+    inversion Hr; subst; first [reflexivity | split; [reflexivity|apply Hb; reflexivity]].
+Qed.
+
+Lemma desc_matches_has_rid G d : desc_matches G d = true -> has_rid d <> None.
+Proof.
+  unfold desc_matches. destruct (lookup_core _ _); [|discriminate].
+  destruct (has_rid d); [congruence|discriminate].
+Qed.
+
+Theorem built_inst_conforms G t d s e i :
+  desc_matches G d = true -> args_ok G t d e -> d_sink d <> SDedupType ->
+  built_inst d s e = Some i -> (forall v, i_rid i = Some v -> v < w32) ->
+  conforms G t i = true.
+Proof.
+  intros HM HA Hs HB Hb. unfold built_inst in HB.
+  destruct (call_parts d e) as [[rt ops]|] eqn:HP; [|discriminate].
+  destruct (rid_of d s e) as [rid|] eqn:Hr; [|discriminate].
+  inversion HB; subst. cbn [mk_inst i_rid] in Hb.
+  apply built_conforms with (e := e); try assumption.
+  apply rid_of_settled with (s := s) (e := e); try assumption.
+  apply desc_matches_has_rid with (G := G). exact HM.
+Qed.
+
+(** ** run level: the result id bound comes with the call *)
+Lemma args_ok_rid G t d e : args_ok G t d e -> rid_arg_ok d e = true.
+Proof.
+  unfold args_ok, args_okb. destruct (lookup_core _ _); [|discriminate].
+  destruct (has_rid d); [|discriminate]. destruct (call_parts d e) as [[rt ops]|]; [|discriminate].
+  destruct (strip_res _ _ _ _); [|discriminate]. intros H.
+  apply andb_prop in H as [H _]. apply andb_prop in H as [H _]. apply andb_prop in H as [_ H]. exact H.
+Qed.
+
+Lemma rid_bound d s e idv :
+  rid_of d s e = Some idv -> rid_arg_ok d e = true ->
+  (takes_fresh d e = true -> bs_next s + 1 < w32) ->
+  forall v, idv = Some v -> v < w32.
+Proof.
+  unfold rid_of, rid_arg_ok, takes_fresh. intros Hr Ha Hf v ->.
+  destruct (d_rid d) as [| |p|p|]; try discriminate.
+  - inversion Hr; subst. specialize (Hf eq_refl). lia.
+  - destruct (assoc p e) as [[]|]; try discriminate. inversion Hr; subst. apply N.ltb_lt. exact Ha.
+  - destruct (assoc p e) as [[]|]; try discriminate.
+    match type of Hr with context [match ?x with _ => _ end] => destruct x end.
+    + inversion Hr; subst. apply N.ltb_lt. exact Ha.
+    + inversion Hr; subst. specialize (Hf eq_refl). lia.
+Qed.
+
+(** a successful call of a matching non-type method with conforming
+    arguments hands a conforming instruction to its sink *)
+Theorem call_conforms G t d s e s' o :
+  desc_matches G d = true -> args_ok G t d e -> d_sink d <> SDedupType ->
+  run_descriptor d s e = Some (s', o) -> ~ failed o ->
+  exists i, built_inst d s e = Some i /\ received d e s s' i /\ conforms G t i = true.
+Proof.
+  intros HM HA Hs H Hf.
+  destruct (descriptor_call_spec d s e s' o Hs H Hf) as (i & HB & HR & _ & _).
+  exists i. split; [exact HB|]. split; [exact HR|].
+  apply built_inst_conforms with (d := d) (s := s) (e := e); try assumption.
+  rewrite (run_descriptor_plain d s e Hs) in H. unfold built_inst, call_parts in HB.
+  destruct (all_operands e (d_slots d)) as [ops|]; [|discriminate].
+  destruct (rt_of d e) as [rtv|]; [|discriminate].
+  destruct (idr_of d s e) as [[[idv s1]|]|] eqn:I; [| |discriminate].
+  - apply idr_of_rid in I as [Hr Hfresh]. rewrite Hr in HB. inversion HB; subst. cbn [mk_inst i_rid].
+    apply rid_bound with (d := d) (s := s) (e := e); [exact Hr|apply args_ok_rid with (G := G) (t := t); exact HA|].
+    intros Ht. rewrite Ht in Hfresh. tauto.
+  - inversion H; subst. exfalso. apply Hf. exact Logic.I.
+Qed.
+
+(** a type method (sink SDedupType) either returns an existing id and
+    leaves the types alone, or appends one conforming declaration *)
+Theorem type_call_conforms G t d s e s' o :
+  desc_matches G d = true -> args_ok G t d e -> d_sink d = SDedupType ->
+  run_descriptor d s e = Some (s', o) ->
+  types s' = types s \/ exists i, types s' = types s ++ [i] /\ conforms G t i = true.
+Proof.
+  intros HM HA Hs H.
+  destruct (dedup_parts d s e s' o Hs H) as (rt & ops & req & HP & Hreq & Hrun).
+  assert (Hh: has_rid d = Some true).
+  { pose proof (desc_matches_has_rid G d HM) as Hn. unfold has_rid in *. rewrite Hs in *.
+    destruct (d_rid d); congruence. }
+  assert (Hconf: forall id, id < w32 -> conforms G t (mk_inst (d_opcode d) rt (Some id) ops) = true).
+  { intros id Hid. apply built_conforms with (e := e); try assumption. split; assumption. }
+  unfold dedup_run in Hrun. destruct req as [id|].
+  - inversion Hrun; subst. right. eexists. split; [reflexivity|]. apply Hconf.
+    apply dedup_req_cases in Hreq as [(p & Hp & Ha)|[_ Hx]]; [|discriminate].
+    pose proof (args_ok_rid G t d e HA) as Hr. unfold rid_arg_ok in Hr. rewrite Hp, Ha in Hr.
+    apply N.ltb_lt. exact Hr.
+  - destruct (dedup_find (types s) (mk_inst (d_opcode d) rt None ops)) as [id|].
+    + inversion Hrun; subst. left. reflexivity.
+    + destruct (take_id s) as [[id s1]|] eqn:T.
+      * apply take_id_some in T as (-> & -> & Hlt). inversion Hrun; subst. right.
+        eexists. split; [reflexivity|]. apply Hconf. lia.
+      * inversion Hrun; subst. left. reflexivity.
+Qed.
+
+(** ** [built_inst] needs the non-type-method hypothesis
+    [built_inst] is, by its definition in Proofs/BuilderIds.v, the instruction
+    of a NON-dedup call: for a type method it carries the requested id
+    ([None] for an implicit request), whereas the instruction the method
+    pushes always has one.  Without [d_sink d <> SDedupType] the statement of
+    [built_inst_conforms] is false: for [type_int(32, 1)] the descriptor
+    matches, the arguments are fine, and [built_inst] is
+    [OpTypeInt 32 1] WITHOUT result id, which does not conform
+    (see [built_inst_needs_non_dedup] below).  The type methods are covered
+    by [built_conforms] (with the settled id) and [type_call_conforms]. *)
+
+(** ------------------------------------------------------------------ *)
+(** * Conforming instructions assemble and parse back                    *)
+(** ------------------------------------------------------------------ *)
+From RV Require Proofs.CodecFacts.
+
+Corollary built_roundtrip G t d e rt ops rid :
+  CodecFacts.wf_gdata G = true ->
+  desc_matches G d = true -> args_ok G t d e ->
+  call_parts d e = Some (rt, ops) -> rid_settled d rid ->
+  let i := mk_inst (d_opcode d) rt rid ops in
+  forall r o idx,
+    parse_inst G t idx {| rest := bytes_of_words (asm_inst i) ++ r; off := o; lim := None |}
+    = Ok (i, {| rest := r; off := o + 4 * N.of_nat (length (asm_inst i)); lim := None |}).
+Proof.
+  intros WF HM HA HP HR i. apply CodecFacts.roundtrip; [exact WF|].
+  apply built_conforms with (e := e); assumption.
+Qed.
+
+(** ------------------------------------------------------------------ *)
+(** * The descriptors of this run                                        *)
+(** ------------------------------------------------------------------ *)
+From RV Require Inst.Linked Gen.BuilderData.
+Import Inst.Linked Gen.BuilderData.
+
+(** The methods whose descriptor does not line up with the grammar entry of
+    their opcode, i.e. that cannot be shown to emit conforming instructions:
+
+    - [type_struct_continued_intel], [type_struct_continued_intel_id]
+      (known finding F18): generated as type methods, they give the
+      instruction a result id (explicit or fresh), but the grammar entry of
+      OpTypeStructContinuedINTEL is [IdRef*] without IdResult.  EVERY
+      instruction they push is non-conforming
+      ([type_struct_continued_never_conforms]).
+
+    - [spec_constant_op(result_type, opcode)]: emits OpSpecConstantOp with
+      the single operand LiteralSpecConstantOpInteger(opcode); the method has
+      no parameter for the operands of the embedded opcode, so the
+      instruction conforms only for an embedded opcode without required
+      operands ([spec_constant_op_iadd]: IAdd, not conforming).
+
+    - [copy_memory], [copy_memory_sized] (+ insert_ variants): two optional
+      MemoryAccess masks share ONE trailing [additional_params] list.  The
+      grammar wants the parameters of the first mask (Aligned: a literal,
+      MakePointerAvailable: a scope id, ...) BEFORE the second mask; the
+      method appends them after it.  So with a parameterised first mask and a
+      second mask present no argument list conforms
+      ([copy_memory_two_masks]); with the second mask absent the call does
+      conform ([copy_memory_one_mask]) - the descriptor is rejected as a
+      whole because the position of the parameters depends on the arguments.
+
+    - [cooperative_matrix_load_tensor_nv], [cooperative_matrix_store_tensor_nv]
+      (+ insert_ variants): same shape with two REQUIRED parameterised masks
+      (MemoryAccess, then TensorAddressingOperands) and one shared list
+      ([tensor_two_masks]). *)
+Definition exceptions : list string :=
+  [ "cooperative_matrix_load_tensor_nv"; "cooperative_matrix_store_tensor_nv";
+    "copy_memory"; "copy_memory_sized";
+    "insert_cooperative_matrix_load_tensor_nv"; "insert_cooperative_matrix_store_tensor_nv";
+    "insert_copy_memory"; "insert_copy_memory_sized";
+    "spec_constant_op";
+    "type_struct_continued_intel"; "type_struct_continued_intel_id" ]%string.
+
+(** exactly these do not match ... *)
+Example non_matching :
+  map d_name (filter (fun d => negb (desc_matches G d)) descriptors) = exceptions.
+Proof. vm_compute. reflexivity. Qed.
+
+(** ... and every other descriptor of this run does *)
+Example descs_match :
+  forallb (desc_matches G) (filter (fun d => negb (mem_str (d_name d) exceptions)) descriptors) = true.
+Proof. vm_compute. reflexivity. Qed.
+
+(** the theorems, instantiated with the data of this run *)
+Corollary run_call_conforms t name d s e s' o :
+  find_desc descriptors name = Some d -> mem_str (d_name d) exceptions = false ->
+  args_ok G t d e -> d_sink d <> SDedupType ->
+  run_descriptor d s e = Some (s', o) -> ~ failed o ->
+  exists i, built_inst d s e = Some i /\ received d e s s' i /\ conforms G t i = true.
+Proof.
+  intros Hf Hx. apply call_conforms.
+  pose proof descs_match as H. rewrite forallb_forall in H. apply H.
+  apply filter_In. split.
+  - unfold find_desc in Hf. apply find_some in Hf. tauto.
+  - rewrite Hx. reflexivity.
+Qed.
+
+Corollary run_type_call_conforms t name d s e s' o :
+  find_desc descriptors name = Some d -> mem_str (d_name d) exceptions = false ->
+  args_ok G t d e -> d_sink d = SDedupType ->
+  run_descriptor d s e = Some (s', o) ->
+  types s' = types s \/ exists i, types s' = types s ++ [i] /\ conforms G t i = true.
+Proof.
+  intros Hf Hx. apply type_call_conforms.
+  pose proof descs_match as H. rewrite forallb_forall in H. apply H.
+  apply filter_In. split.
+  - unfold find_desc in Hf. apply find_some in Hf. tauto.
+  - rewrite Hx. reflexivity.
+Qed.
+
+(** ** concrete calls *)
+Definition no_desc : descriptor :=
+  {| d_name := ""; d_params := []; d_opcode := 0; d_rt := RtNone; d_rid := RidNone; d_slots := [];
+     d_sink := SLineRule; d_ret := RetUnit |}.
+Definition the (name : string) : descriptor :=
+  match find_desc descriptors name with Some d => d | None => no_desc end.
+
+(** the instruction of a call from the empty builder and whether it conforms *)
+Definition built_conf (t : tracker) (name : string) (e : env) : option (list operand * bool) :=
+  match built_inst (the name) bnew e with
+  | Some i => Some (i_ops i, conforms G t i)
+  | None => None
+  end.
+
+Open Scope string_scope.
+
+(** the exceptions *)
+Example copy_memory_two_masks :    (* Aligned 4, then Volatile: the 4 lands after the second mask *)
+  built_conf [] "copy_memory"
+    [("target", AW 1); ("source", AW 2); ("memory_access", AOptW (Some 2));
+     ("memory_access_2", AOptW (Some 1)); ("additional_params", AOps [OLit32 4])]
+  = Some ([OIdRef 1; OIdRef 2; OEnum 6 2; OEnum 6 1; OLit32 4], false).
+Proof. vm_compute. reflexivity. Qed.
+
+Example copy_memory_one_mask :
+  built_conf [] "copy_memory"
+    [("target", AW 1); ("source", AW 2); ("memory_access", AOptW (Some 2));
+     ("memory_access_2", AOptW None); ("additional_params", AOps [OLit32 4])]
+  = Some ([OIdRef 1; OIdRef 2; OEnum 6 2; OLit32 4], true).
+Proof. vm_compute. reflexivity. Qed.
+
+Example tensor_two_masks :         (* Aligned 4, TensorView %9 *)
+  built_conf [] "cooperative_matrix_store_tensor_nv"
+    [("pointer", AW 1); ("object", AW 2); ("tensor_layout", AW 3); ("memory_operand", AW 2);
+     ("tensor_addressing_operands", AW 1); ("additional_params", AOps [OLit32 4; OIdRef 9])]
+  = Some ([OIdRef 1; OIdRef 2; OIdRef 3; OEnum 6 2; OEnum 47 1; OLit32 4; OIdRef 9], false).
+Proof. vm_compute. reflexivity. Qed.
+
+Example spec_constant_op_iadd :    (* %1 = OpSpecConstantOp %7 IAdd <nothing> *)
+  built_conf [] "spec_constant_op" [("result_type", AW 7); ("opcode", AW 128)]
+  = Some ([OSpecOp 128], false).
+Proof. vm_compute. reflexivity. Qed.
+
+(** F18: whatever the members and the result id, the pushed instruction does
+    not conform (the entry has no IdResult) *)
+Example type_struct_continued_never_conforms : forall t id ms,
+  conforms G t (mk_inst 6090 None (Some id) (map OIdRef ms)) = false.
+Proof.
+  intros t id ms. unfold conforms. cbn [mk_inst i_opcode i_rtype i_rid i_ops].
+  replace (lookup_core (gd_table G) 6090) with
+    (Some {| g_name := "TypeStructContinuedINTEL"; g_opcode := 6090; g_caps := ["LongCompositesINTEL"];
+             g_exts := []; g_operands := [(60, ZeroOrMore)] |}) by (vm_compute; reflexivity).
+  cbn [g_operands conf_lops none nil andb negb gd_k_rt gd_k_rid G].
+  change (N.eqb 60 k_rt) with false. change (N.eqb 60 k_rid) with false. cbn [negb andb]. reflexivity.
+Qed.
+
+Example type_struct_continued_pushes :
+  option_map (fun r => types (fst r))
+    (run_descriptor (the "type_struct_continued_intel") bnew [("member_0_type_member_1_type", AListW [3; 4])])
+  = Some [mk_inst 6090 None (Some 1) [OIdRef 3; OIdRef 4]].
+Proof. vm_compute. reflexivity. Qed.
+
+(** the counterexample to [built_inst_conforms] without [d_sink d <> SDedupType] *)
+Example built_inst_needs_non_dedup :
+  let d := the "type_int" in
+  let e := [("width", AW 32); ("signedness", AW 1)] in
+  desc_matches G d = true /\ args_okb G [] d e = true /\ d_sink d = SDedupType /\
+  built_inst d bnew e = Some (mk_inst 21 None None [OLit32 32; OLit32 1]) /\
+  conforms G [] (mk_inst 21 None None [OLit32 32; OLit32 1]) = false /\
+  (* what the call really pushes conforms *)
+  conforms G [] (mk_inst 21 None (Some 1) [OLit32 32; OLit32 1]) = true.
+Proof. vm_compute. repeat split; reflexivity. Qed.
+
+(** [args_okb] on calls of matching methods: accepted calls build conforming
+    instructions (the theorem), the rejected ones below do not conform *)
+Definition call_ok (t : tracker) (name : string) (e : env) : bool * option (list operand * bool) :=
+  (args_okb G t (the name) e, built_conf t name e).
+
+Example decorate_builtin :         (* OpDecorate %5 BuiltIn Position *)
+  call_ok [] "decorate" [("target", AW 5); ("decoration", AW 11); ("additional_params", AOps [OEnum 33 0])]
+  = (true, Some ([OIdRef 5; OEnum 32 11; OEnum 33 0], true)).
+Proof. vm_compute. reflexivity. Qed.
+Example decorate_builtin_missing_param :
+  call_ok [] "decorate" [("target", AW 5); ("decoration", AW 11); ("additional_params", AOps [])]
+  = (false, Some ([OIdRef 5; OEnum 32 11], false)).
+Proof. vm_compute. reflexivity. Qed.
+Example decorate_unknown_enumerant :
+  call_ok [] "decorate" [("target", AW 5); ("decoration", AW 99999); ("additional_params", AOps [])]
+  = (false, Some ([OIdRef 5; OEnum 32 99999], false)).
+Proof. vm_compute. reflexivity. Qed.
+Example execution_mode_local_size :   (* LocalSize x y z: the list argument carries the parameters *)
+  call_ok [] "execution_mode" [("entry_point", AW 5); ("execution_mode", AW 17); ("params", AListW [1; 2; 3])]
+  = (true, Some ([OIdRef 5; OEnum 15 17; OLit32 1; OLit32 2; OLit32 3], true))
+  /\ call_ok [] "execution_mode" [("entry_point", AW 5); ("execution_mode", AW 17); ("params", AListW [1; 2])]
+  = (false, Some ([OIdRef 5; OEnum 15 17; OLit32 1; OLit32 2], false)).
+Proof. split; vm_compute; reflexivity. Qed.
+Example load_aligned :
+  call_ok [] "load" [("result_type", AW 2); ("result_id", AOptW (Some 9)); ("pointer", AW 4);
+                     ("memory_access", AOptW (Some 2)); ("additional_params", AOps [OLit32 4])]
+  = (true, Some ([OIdRef 4; OEnum 6 2; OLit32 4], true)).
+Proof. vm_compute. reflexivity. Qed.
+Example source_skips_file :        (* the optional string without the optional file before it *)
+  call_ok [] "source" [("source_language", AW 2); ("version", AW 450); ("file", AOptW None);
+                       ("source", AOptStr (Some [97]))]
+  = (false, Some ([OEnum 11 2; OLit32 450; OStr [97]], false)).
+Proof. vm_compute. reflexivity. Qed.
+Example constant_widths :          (* literal width by the tracked result type *)
+  call_ok [(1, TInt 64 false)] "constant_bit64" [("result_type", AW 1); ("value", AW 5000000000)]
+  = (true, Some ([OLit64 5000000000], true))
+  /\ call_ok [(1, TInt 64 false)] "constant_bit32" [("result_type", AW 1); ("value", AW 5)]
+  = (false, Some ([OLit32 5], false)).
+Proof. split; vm_compute; reflexivity. Qed.
+Example switch_targets :
+  call_ok [(3, TInt 32 false)] "switch"
+    [("selector", AW 3); ("default", AW 20); ("target", APairsOW [(OLit32 1, 21); (OLit32 2, 22)])]
+  = (true, Some ([OIdRef 3; OIdRef 20; OLit32 1; OIdRef 21; OLit32 2; OIdRef 22], true))
+  /\ call_ok [(3, TInt 64 false)] "switch"
+    [("selector", AW 3); ("default", AW 20); ("target", APairsOW [(OLit32 1, 21)])]
+  = (false, Some ([OIdRef 3; OIdRef 20; OLit32 1; OIdRef 21], false)).
+Proof. split; vm_compute; reflexivity. Qed.
+Example ext_inst_operands :
+  call_ok [] "ext_inst" [("result_type", AW 2); ("result_id", AOptW (Some 9)); ("extension_set", AW 1);
+                         ("instruction", AW 7); ("operands", AOps [OIdRef 4; OIdRef 5])]
+  = (true, Some ([OIdRef 1; OExtInst 7; OIdRef 4; OIdRef 5], true)).
+Proof. vm_compute. reflexivity. Qed.
+
+(** the trailing-run restriction of [args_ok] is sufficient, not necessary:
+    with two optional operands of the same kind the second alone is read as
+    the first, and the instruction still conforms to the grammar *)
+Example optional_shift :
+  call_ok [] "reorder_thread_with_hit_object_nv"
+    [("hit_object", AW 4); ("hint", AOptW None); ("bits", AOptW (Some 7))]
+  = (false, Some ([OIdRef 4; OIdRef 7], true))      (* %7 is read back as the hint *)
+  /\ call_ok [] "reorder_thread_with_hit_object_nv"
+    [("hit_object", AW 4); ("hint", AOptW (Some 6)); ("bits", AOptW (Some 7))]
+  = (true, Some ([OIdRef 4; OIdRef 6; OIdRef 7], true)).
+Proof. split; vm_compute; reflexivity. Qed.
+
+Print Assumptions built_conforms.
+Print Assumptions built_inst_conforms.
+Print Assumptions call_conforms.
+Print Assumptions type_call_conforms.
+Print Assumptions built_roundtrip.
+Print Assumptions descs_match.
+Print Assumptions non_matching.
+Print Assumptions run_call_conforms.
+Print Assumptions run_type_call_conforms.
+Print Assumptions type_struct_continued_never_conforms.
+Print Assumptions built_inst_needs_non_dedup.
